@@ -80,6 +80,15 @@ func (fr *Frame) callModifies(ins ssa.CallInstruction) ([]string, bool) {
 	for _, m := range spec.Modifies {
 		out = append(out, vc.modComp(m, spec, fr, cc)...)
 	}
+	if len(spec.Releases) > 0 {
+		out = append(out, vc.ownedComp())
+	}
+	rs := cc.Signature().Results()
+	for i := 0; i < rs.Len(); i++ {
+		if vc.isPooledPtr(rs.At(i).Type()) {
+			out = append(out, vc.ownedComp())
+		}
+	}
 	return out, true
 }
 
@@ -446,6 +455,20 @@ func (fr *Frame) applyContract(spec *FuncSpec, cc *ssa.CallCommon, st *State, po
 			}
 		}
 	}
+	// pooled objects passed to a callee must be owned
+	for i, a := range cc.Args {
+		if vc.isPooledPtr(a.Type()) {
+			if _, interior := fr.lvals[a]; !interior {
+				off := 0
+				if cc.IsInvoke() {
+					off = 1
+				}
+				if i+off < len(args) {
+					fr.requireOwnedOrNil(args[i+off].S, "argument of "+spec.Key, pos, st)
+				}
+			}
+		}
+	}
 	// at-call assertions of the *caller*
 	fr.atCallAsserts(spec.Key, cc, st, pos)
 	oldSt := st.clone()
@@ -496,6 +519,18 @@ func (fr *Frame) applyContract(spec *FuncSpec, cc *ssa.CallCommon, st *State, po
 			env["result"] = t
 		}
 		fr.resultPtrFact(t, st)
+	}
+	for _, rel := range spec.Releases {
+		if t, ok := env[rel]; ok {
+			oc := vc.ownedComp()
+			vc.set(st, oc, fmt.Sprintf("(store %s %s false)", vc.get(st, oc), t.S))
+		}
+	}
+	for _, r := range res {
+		if r.T != nil && vc.isPooledPtr(r.T) {
+			oc := vc.ownedComp()
+			vc.set(st, oc, fmt.Sprintf("(store %s %s true)", vc.get(st, oc), r.S))
+		}
 	}
 	// panic edge
 	if spec.PanicsMay {
@@ -606,6 +641,12 @@ func (fr *Frame) havocLoc(m Expr, spec *FuncSpec, cc *ssa.CallCommon, env map[st
 				n, _ := readSx(vc.comps[comp])
 				elemSort := n.list[2].String()
 				i = ctx.coerceLit(i, n.list[1].String())
+				switch comp {
+				case "$rdpos":
+					i.S = vc.canon("rd", i.S)
+				case "$wr", "$wrlen", "$wrflush":
+					i.S = vc.canon("wr", i.S)
+				}
 				f := vc.fresh("hv")
 				vc.declare(f, elemSort)
 				vc.set(st, comp, fmt.Sprintf("(store %s %s %s)", old, i.S, f))
@@ -1149,4 +1190,9 @@ func blockReaches(from, to *ssa.BasicBlock) bool {
 		}
 	}
 	return false
+}
+
+func (fr *Frame) requireOwnedOrNil(p string, what string, pos token.Pos, st *State) {
+	vc := fr.vc
+	vc.oblige("ownership", fr.ownTags(), fr.curReach, fmt.Sprintf("(or (= %s 0) (select %s %s))", p, vc.get(st, vc.ownedComp()), p), "pooled object is owned (not used after Put): "+what, pos, nil)
 }
